@@ -657,6 +657,47 @@ def _gen_vibrability(w, rng):
 Adapter("vibrability", "vector", "static.vector.vibrability", gen=_gen_vibrability, files=_npy_arg())
 
 
+# On the pinned pandas both of these raise (in-place division on a read-only array) with and
+# without history; they are still called: whatever they do to their inputs before that line is
+# judged (I1), and the day the environment lets them finish, I2 / I3 apply unchanged.
+def _gen_vdsq(w, rng):
+    s = pick_base(w, rng, lambda t: t["cell"] == "ortho")
+    if s is None:
+        return None
+    v = _pick_vec(w, rng, s)
+    if v is None:
+        return None
+    args = {"snapshot": ref(s, v["frame"]), "qvector": ref(comp(w, s, ".qvec")), "vector": v}
+    out = outpath(w, rng, "csv")
+    if out:
+        args["outputfile"] = out
+    return {"args": args}
+
+
+def _files_vdsq(w, op, res):
+    p = op["args"].get("outputfile")
+    if not p:
+        return []
+    return [(p if p.endswith(".csv") else p + ".csv", res[1], "csv:8")]
+
+
+Adapter("vector_decomposition_sq", "vector", "static.vector.vector_decomposition_sq", gen=_gen_vdsq, files=_files_vdsq, weight=0.5)
+
+
+def _gen_vfc(w, rng):
+    s = pick_base(w, rng, lambda t: t["cell"] == "ortho" and t["lin"])
+    if s is None:
+        return None
+    c = conds(w, s, ("TNd",), ("float",), maxdepth=0)
+    if not c:
+        return None
+    return {"args": {"snapshots": ref(s), "qvector": ref(comp(w, s, ".qvec")), "vectors": ref(rng.choice(c)),
+                     "dt": rng.choice([0.002, 0.01]), "outputfile": rng.choice(["pre_a", "pre_b"])}}
+
+
+Adapter("vector_fft_corr", "vector", "static.vector.vector_fft_corr", gen=_gen_vfc, weight=0.4)
+
+
 # -------------------------------------------------- library output files re-enter the pool ----
 
 def _gen_load_evecs(w, rng):
